@@ -357,6 +357,20 @@ for _f in ("iter", "list", "set", "tuple", "sorted", "frozenset", "reversed_list
         _calls.append("len(list(%s))" % _inner)
     atom("cast_of_comprehension_kind[%s]" % _f, "ws = [3, 1, 2, 3, 1]\na = (%s)\n" % ", ".join(_calls), "a", ["alone"])
 
+# a loop body that rebinds a name its own header reads, to a loop-invariant value (added after the seeded change
+# C01-move-before-loop-ignores-iterable: hoisting the assignment in front of the loop changes what is iterated)
+atom("loop_rebinds_header_name", "def drain(pending):\n    r = []\n    for job in pending:\n        r.append(job * 2)\n        pending = []\n    return r, pending\n"
+     "def steps(limit):\n    r = []\n    for step in range(limit):\n        r.append(step)\n        limit = 5\n    return r, limit\n"
+     "def spin(go):\n    n = 0\n    while go:\n        n += 1\n        go = False\n    return n, go\n"
+     "a = (drain([1, 2, 3]), steps(2), spin(True))\n", "a", ["alone"])
+
+# two classes whose static methods have the same name and different bodies (added after the seeded change
+# C19-static-extraction-name-collision-guard: both were extracted to module level under one generated name)
+atom("two_classes_same_static_name", "class Circle:\n    @staticmethod\n    def describe(v):\n        return 'circle %s' % v\n    def area(self):\n        return self.describe(1)\n"
+     "class Square:\n    @staticmethod\n    def describe(v):\n        return 'square %s' % v\n    @staticmethod\n    def sides():\n        return 4\n"
+     "class Dot:\n    @staticmethod\n    def sides():\n        return 0\n"
+     "a = (Circle.describe(2), Square.describe(3), Square.sides(), Dot.sides(), Circle().area())\n", "a", ["alone"])
+
 atom("twin_literals", "e0 = 12\nunit = 'ms'\nspec = 'd'\na = (f'{e0}ms', unit, f'{e0:d}', spec, f'{e0:>4}' '>4', f'''{e0}\nms''', 'ms', \"ms\", r'ms')\n", "a", ["alone"])
 
 # ---- shadowing family: an outer variable the naming rule renames x an inner function whose parameter of each kind has
